@@ -15,7 +15,8 @@ RULE = ("(a) model seam: create_hydraulic_model on R-pipe-J; (Pmin,Preq) in {(0,
         "regime, and a two-junction network where only one junction carries overrides; (c) dynamic seam: 6-step runs in which a head "
         "pattern walks the junction through all regimes while the requested demand follows a pattern and a time control changes "
         "one per-junction parameter {none, required_pressure, minimum_pressure, pressure_exponent} at 2 h. oracle: zero/full/power-law values, "
-        "monotone, continuous, overrides local. non-trivial: grid covers all five branches and D>0")
+        "monotone, continuous, overrides local.  thorough: 13 (Pmin,Preq) pairs incl. a band barely wider than the two smoothing zones, both-sides-of-zero and 0..100 m, "
+        "9 exponents 0.3..2.0, 7 requested demands 0..25 (a required pressure <= the smoothing delta is refused by the model builder: outside). non-trivial: grid covers all five branches and D>0")
 
 PAIRS = [(0.0, 20.0), (3.516, 21.097), (5.0, 5.5), (0.0, 0.2), (-5.0, 15.0)]     # incl. a negative minimum pressure (legal)
 EXPS = [0.5, 0.4, 0.75, 1.0]
@@ -43,7 +44,19 @@ def params(mode, pmin, preq, e):
     return o, j
 
 
+PAIRS_T = PAIRS + [(0.0, 0.11), (0.0, 1.0), (2.5, 2.7), (10.0, 50.0), (0.0, 100.0), (-20.0, 5.0), (1e-3, 30.0), (14.06, 28.12)]
+EXPS_T = EXPS + [0.3, 0.6, 0.9, 1.5, 2.0]
+DEMS_T = DEMS + [1e-6, 0.1, 25.0]
+
+
 def cases(tier):
+    out = []
+    if tier == "thorough":
+        return _cases(tier, PAIRS_T, EXPS_T, DEMS_T)
+    return _cases(tier, PAIRS, EXPS, DEMS)
+
+
+def _cases(tier, PAIRS, EXPS, DEMS):
     out = []
     for (pmin, preq), e, D, mode in itertools.product(PAIRS, EXPS, DEMS, MODES):
         if tier == "quick" and mode not in ("global", "junction_all") and (D != 0.01):
